@@ -6,11 +6,48 @@ package raftv2
 // TLC-generated transitions of both models (spec/raft/RaftWal.tla, spec/raft/RaftMembership.tla).
 
 import (
+	"encoding/json"
+	"os"
+	"sort"
+	"sync"
 	"testing"
 
 	"github.com/aergoio/aergo/v2/internal/verifkit"
 	"github.com/rs/zerolog"
 )
+
+// inflight keeps the file $VERIF_OUT.inflight up to date with the cases being executed.  The code under test
+// calls logger.Fatal (= os.Exit) in many places; when that happens no result file is written, and checks/c16.py
+// uses this file together with the fatal log line to report what the node was handling when it exited.
+type inflight struct {
+	mu   sync.Mutex
+	m    map[string]bool
+	path string
+}
+
+var flight = &inflight{m: map[string]bool{}}
+
+func (f *inflight) begin(key string) {
+	f.mu.Lock()
+	defer f.mu.Unlock()
+	f.m[key] = true
+	if f.path == "" {
+		return
+	}
+	keys := make([]string, 0, len(f.m))
+	for k := range f.m {
+		keys = append(keys, k)
+	}
+	sort.Strings(keys)
+	b, _ := json.Marshal(keys)
+	os.WriteFile(f.path, b, 0o644)
+}
+
+func (f *inflight) end(key string) {
+	f.mu.Lock()
+	delete(f.m, key)
+	f.mu.Unlock()
+}
 
 type c16Input struct {
 	Wal    *walInput    `json:"wal"`
@@ -27,11 +64,13 @@ func TestVerifC16(t *testing.T) {
 	if err := verifkit.ReadInput(&in); err != nil {
 		t.Fatal(err)
 	}
+	flight.path = os.Getenv("VERIF_OUT") + ".inflight"
 	res := verifkit.NewResult()
 	defer func() {
 		if err := res.Write(); err != nil {
 			t.Fatal(err)
 		}
+		os.Remove(flight.path)
 	}()
 	if in.Member != nil {
 		memberPart(t, in.Member, res)
